@@ -406,7 +406,7 @@ def run(ck: Check):
     short = [p for p in faulted if len(p) <= L1]
     longer = [p for p in faulted if len(p) > L1]
     rng.shuffle(longer)
-    progs2 = short + longer[:ck.n(3500, 60000)]
+    progs2 = short + longer[:ck.n(2500, 60000)]
     # ---- stage 3: longer programs: recovery after an abortable error, everything after a fatal one,
     #               random programs of length 5-6 with one or two faults
     scripted = []
